@@ -2,7 +2,6 @@ package decoder
 
 import (
 	"encoding/json"
-	"strconv"
 	"unsafe"
 
 	"github.com/goccy/go-json/internal/errors"
@@ -29,8 +28,8 @@ func (d *numberDecoder) DecodeStream(s *Stream, depth int64, p unsafe.Pointer) e
 	if err != nil {
 		return err
 	}
-	if _, err := strconv.ParseFloat(*(*string)(unsafe.Pointer(&bytes)), 64); err != nil {
-		return errors.ErrSyntax(err.Error(), s.totalOffset())
+	if !isValidNumber(bytes) {
+		return errInvalidNumber(bytes, s.totalOffset())
 	}
 	d.op(p, json.Number(string(bytes)))
 	s.reset()
@@ -42,8 +41,8 @@ func (d *numberDecoder) Decode(ctx *RuntimeContext, cursor, depth int64, p unsaf
 	if err != nil {
 		return 0, err
 	}
-	if _, err := strconv.ParseFloat(*(*string)(unsafe.Pointer(&bytes)), 64); err != nil {
-		return 0, errors.ErrSyntax(err.Error(), c)
+	if !isValidNumber(bytes) {
+		return 0, errInvalidNumber(bytes, c)
 	}
 	cursor = c
 	s := *(*string)(unsafe.Pointer(&bytes))
